@@ -627,5 +627,158 @@ theorem relX_init (hs : SongNoEnd song) (hr : NoEnd root) (items : List Item) (h
   refine ⟨rfl, rfl, rfl, rfl, rfl, rfl, rfl, fun _ => ⟨k, outs, ⟨hk, hno, ?_⟩, hseg k, hfuel k outs hk, hit⟩, fun hh => by simp [lxInit] at hh⟩
   exact stepsCore_outOK song root (codesNoEnd_of song root hs hr) k _ _ outs hk
 
+/-! ### where `SegTop` comes from -/
+theorem segTop_step (k : Nat) (c c' : Core) (o : Out) (h : coreStep song root c = .ok (c', o)) :
+    SegTop song root (k + 1) c ↔ (isSegnoHook o = true → c.track = .root ∧ c.stack = []) ∧ SegTop song root k c' := by
+  simp [SegTop, h]
+
+/-- past the end of the channel's track nothing is read any more -/
+theorem segTop_past : ∀ (k p : Nat), root.length ≤ p → SegTop song root k ⟨.root, p, []⟩
+  | 0, _, _ => trivial
+  | k + 1, p, hp => by
+    have hk : endEvent.kind = .fin := by decide
+    have hnone : root[p]? = none := by simp [hp]
+    have hs : coreStep song root ⟨.root, p, []⟩ = .ok (⟨.root, p + 1, []⟩, .rootEnd endEvent) := by
+      simp [coreStep, fetch, codeOf, hnone, hk]
+    rw [segTop_step song root k _ _ _ hs]
+    exact ⟨by simp [isSegnoHook], segTop_past k (p + 1) (by omega)⟩
+
+/-- a run that reads no `SEGNO` -/
+theorem segTop_noSeg : ∀ (k : Nat) (c c1 : Core) (os : List Out), stepsCore song root k c = .ok (c1, os) →
+    (∀ o ∈ os, isSegnoHook o = false) → SegTop song root k c
+  | 0, _, _, _, _, _ => trivial
+  | k + 1, c, c1, os, h, hno => by
+    simp only [stepsCore] at h
+    cases hs : coreStep song root c with
+    | error e => rw [hs] at h; simp at h
+    | ok p =>
+      obtain ⟨c', o⟩ := p
+      rw [hs] at h
+      simp only [] at h
+      cases hs2 : stepsCore song root k c' with
+      | error e => rw [hs2] at h; simp at h
+      | ok p2 =>
+        obtain ⟨c2, os2⟩ := p2
+        rw [hs2] at h
+        simp only [Except.ok.injEq, Prod.mk.injEq] at h
+        obtain ⟨rfl, rfl⟩ := h
+        rw [segTop_step song root k _ _ _ hs]
+        refine ⟨fun hh => ?_, segTop_noSeg k c' c2 os2 hs2 (fun x hx => hno x (by simp [hx]))⟩
+        rw [hno o (by simp)] at hh; cases hh
+
+/-- a run followed by runs that satisfy `SegTop` for every length -/
+theorem segTop_run : ∀ (k1 : Nat) (c c1 : Core) (os1 : List Out), stepsCore song root k1 c = .ok (c1, os1) →
+    SegTop song root k1 c → (∀ k, SegTop song root k c1) → ∀ k, SegTop song root k c
+  | 0, c, c1, os1, h, _, h2 => by
+    simp only [stepsCore, Except.ok.injEq, Prod.mk.injEq] at h
+    rw [h.1]; exact h2
+  | k1 + 1, c, c1, os1, h, h1, h2 => by
+    simp only [stepsCore] at h
+    cases hs : coreStep song root c with
+    | error e => rw [hs] at h; simp at h
+    | ok p =>
+      obtain ⟨c', o⟩ := p
+      rw [hs] at h
+      simp only [] at h
+      cases hs2 : stepsCore song root k1 c' with
+      | error e => rw [hs2] at h; simp at h
+      | ok p2 =>
+        obtain ⟨c2, os2⟩ := p2
+        rw [hs2] at h
+        simp only [Except.ok.injEq, Prod.mk.injEq] at h
+        obtain ⟨rfl, rfl⟩ := h
+        rw [segTop_step song root k1 _ _ _ hs] at h1
+        have ih := segTop_run k1 c' c2 os2 hs2 h1.2 h2
+        intro k
+        cases k with
+        | zero => trivial
+        | succ k => rw [segTop_step song root k _ _ _ hs]; exact ⟨h1.1, ih k⟩
+
+theorem noSeg_of_items (outs : List Out) (h : ∀ i ∈ itemsOf outs, i.src.kind ≠ .segno) :
+    ∀ o ∈ outs, isSegnoHook o = false := by
+  intro o ho
+  cases o with
+  | hook v f =>
+    have : ({ ev := v, src := f } : Item) ∈ itemsOf outs := by
+      simp only [itemsOf, List.mem_filterMap]
+      exact ⟨_, ho, rfl⟩
+    have := h _ this
+    simp [isSegnoHook, this]
+  | ret f => rfl
+  | rootEnd f => rfl
+
+/-- a parsed forest whose expansion succeeds has no fault -/
+theorem closed_of_spine_ok (call : Nat → Nat → Except SErr (List Item)) (d : Nat) {b : Bool} {f : List Node}
+    (hs : Spine b f) : ∀ items, expL call d b f = .ok items → closedL f := by
+  induction hs with
+  | nil => intro _ _; trivial
+  | @closed b n ns hn _ ih =>
+    intro items h
+    rw [expL_cons] at h
+    cases h1 : expN call d b n with
+    | error x => rw [h1] at h; simp [Expand.seq] at h
+    | ok a =>
+      cases h2 : expL call d b ns with
+      | error y => rw [h1, h2] at h; simp [Expand.seq] at h
+      | ok c => exact ⟨hn, ih c h2⟩
+  | @stray e ns hk => intro items h; simp [expL, expN, Expand.seq] at h
+  | @opened b ls body hk _ ih => intro items h; simp [expL, expN, Expand.seq] at h
+
+/-- **No loop point below the top level, one segment at a time.**  If the channel's track is
+`done ++ seg ++ rest`, the machine stands in front of `seg` with an empty stack, `seg` is a
+well-formed piece of track whose performance reads no `SEGNO`, and from behind `seg` on `SegTop`
+holds, then it holds from here on. -/
+theorem segTop_segment (hne : SongNoEnd song) (done seg rest : List Event) (hroot : root = done ++ seg ++ rest)
+    (hseg : NoEnd seg) (is : List Item) (hperf : perf song seg = .ok is) (hno : ∀ i ∈ is, i.src.kind ≠ .segno)
+    (hnext : ∀ k, SegTop song root k ⟨.root, (done ++ seg).length, []⟩) :
+    ∀ k, SegTop song root k ⟨.root, done.length, []⟩ := by
+  have hcl : closedL (parse seg) := closed_of_spine_ok _ 0 (spine_parse seg hseg) is hperf
+  have hsim := simL song root (callK song limit) limit (callK_spec song root hne limit) (parse seg) hcl done rest .root [] false
+    (by simp [codeOf, flatten_parse, hroot]) (by intro fr r h; cases h) (by simp)
+  have hp : expL (callK song limit) ([] : List Frame).length false (parse seg) = .ok is := hperf
+  rw [hp, flatten_parse] at hsim
+  obtain ⟨outs, ⟨k1, hk1, _⟩, hit⟩ := hsim
+  have hlen : done.length + seg.length = (done ++ seg).length := by simp
+  rw [hlen] at hk1
+  exact segTop_run song root k1 _ _ outs hk1
+    (segTop_noSeg song root k1 _ _ outs hk1 (noSeg_of_items outs (by rw [hit]; exact hno))) hnext
+
+/-- a loop point at the top level of the channel's track -/
+theorem segTop_segno (done rest : List Event) (sg : Event) (hroot : root = done ++ sg :: rest) (hsg : sg.kind = .segno)
+    (hnext : ∀ k, SegTop song root k ⟨.root, done.length + 1, []⟩) :
+    ∀ k, SegTop song root k ⟨.root, done.length, []⟩ := by
+  have hc : (codeOf song root .root)[done.length]? = some sg := by simp [codeOf, hroot]
+  have hs := step_other song root (tr := .root) (pos := done.length) (σ := []) hc (Or.inl hsg)
+  intro k
+  cases k with
+  | zero => trivial
+  | succ k => rw [segTop_step song root k _ _ _ hs]; exact ⟨fun _ => ⟨rfl, rfl⟩, hnext k⟩
+
+/-- a track whose performance reads no `SEGNO` at all -/
+theorem segTop_of_noSegno (hne : SongNoEnd song) (hr : NoEnd root) (items : List Item) (hperf : perf song root = .ok items)
+    (hno : ∀ i ∈ items, i.src.kind ≠ .segno) : ∀ k, SegTop song root k ⟨.root, 0, []⟩ := by
+  have := segTop_segment song root hne [] root [] (by simp) hr items hperf hno
+    (by intro k; simpa using segTop_past song root k root.length (Nat.le_refl _))
+  simpa using this
+
+/-- **One loop point at the top level** (the shape the MML front end produces for `L`):
+`root = pre ++ SEGNO :: post`, `pre` and `post` well-formed pieces whose performances read no
+further `SEGNO`. -/
+theorem segTop_one_segno (hne : SongNoEnd song) (pre post : List Event) (sg : Event) (hroot : root = pre ++ sg :: post)
+    (hr : NoEnd root) (hsg : sg.kind = .segno) (ip is : List Item)
+    (hpre : perf song pre = .ok ip) (hpost : perf song post = .ok is)
+    (hnp : ∀ i ∈ ip, i.src.kind ≠ .segno) (hns : ∀ i ∈ is, i.src.kind ≠ .segno) :
+    ∀ k, SegTop song root k ⟨.root, 0, []⟩ := by
+  have hpreE : NoEnd pre := fun e he => hr e (by rw [hroot]; simp [he])
+  have hpostE : NoEnd post := fun e he => hr e (by rw [hroot]; simp [he])
+  have h3 : ∀ k, SegTop song root k ⟨.root, (pre ++ [sg]).length, []⟩ := by
+    have := segTop_segment song root hne (pre ++ [sg]) post [] (by simp [hroot]) hpostE is hpost hns
+      (by intro k; exact segTop_past song root k _ (by simp [hroot]))
+    exact this
+  have h2 : ∀ k, SegTop song root k ⟨.root, pre.length, []⟩ :=
+    segTop_segno song root pre post sg hroot hsg (by simpa using h3)
+  have := segTop_segment song root hne [] pre (sg :: post) (by simp [hroot]) hpreE ip hpre hnp (by simpa using h2)
+  simpa using this
+
 end
 end Ctrmml.TickStream
